@@ -551,6 +551,176 @@ func init() {
 	})
 }
 
+// rebuildHello returns hs with its cipher suites / compression methods replaced (when non-nil) and the bodies of the
+// extensions named in repl replaced.
+func rebuildHello(hs []byte, suites []uint16, comp []byte, repl map[uint16][]byte) ([]byte, error) {
+	p, err := parseHello(hs)
+	if err != nil {
+		return nil, err
+	}
+	s := cryptobyte.String(hs)
+	var sid cryptobyte.String
+	if !s.Skip(4+2+32) || !s.ReadUint8LengthPrefixed(&sid) {
+		return nil, fmt.Errorf("hello framing")
+	}
+	if suites == nil {
+		suites = p.suites
+	}
+	if comp == nil {
+		comp = p.comp
+	}
+	var b cryptobyte.Builder
+	b.AddUint8(1)
+	b.AddUint24LengthPrefixed(func(b *cryptobyte.Builder) {
+		b.AddBytes(hs[4 : 4+2+32])
+		b.AddUint8LengthPrefixed(func(b *cryptobyte.Builder) { b.AddBytes(sid) })
+		b.AddUint16LengthPrefixed(func(b *cryptobyte.Builder) {
+			for _, v := range suites {
+				b.AddUint16(v)
+			}
+		})
+		b.AddUint8LengthPrefixed(func(b *cryptobyte.Builder) { b.AddBytes(comp) })
+		b.AddUint16LengthPrefixed(func(b *cryptobyte.Builder) {
+			for _, e := range p.exts {
+				body := e.body
+				if r, ok := repl[e.typ]; ok {
+					body = r
+				}
+				b.AddUint16(e.typ)
+				b.AddUint16LengthPrefixed(func(b *cryptobyte.Builder) { b.AddBytes(body) })
+			}
+		})
+	})
+	return b.Bytes()
+}
+
+func sortedKeys[K uint8 | uint16](m map[K]string) []K {
+	var ks []K
+	for k := range m {
+		ks = append(ks, k)
+	}
+	sort.Slice(ks, func(i, j int) bool { return ks[i] < ks[j] })
+	return ks
+}
+
+func u16Body(vals []uint16, prefix int) []byte {
+	var b cryptobyte.Builder
+	f := func(b *cryptobyte.Builder) {
+		for _, v := range vals {
+			b.AddUint16(v)
+		}
+	}
+	if prefix == 1 {
+		b.AddUint8LengthPrefixed(f)
+	} else {
+		b.AddUint16LengthPrefixed(f)
+	}
+	r, _ := b.Bytes()
+	return r
+}
+
+func u8Body(vals []uint8) []byte { return append([]byte{byte(len(vals))}, vals...) }
+
+// jsonlists: {"sni": s, "bases": [ids]} -> JSON documents whose list-valued members contain EVERY value of the dictionary
+// they are named from (including code point 0): ke_modes, ec_point_format_list, compress_certificate algorithms,
+// named_group_list, supported_signature_algorithms, compression_methods, cipher_suites (in chunks). Each is the first
+// describable base hello that carries the extension, with that list replaced. Events as jsonhellos, id "list:<member>".
+func init() {
+	hlib.Register("jsonlists", func(in []byte, out *hlib.Out) error {
+		var req struct {
+			SNI   string
+			Bases []string
+		}
+		if err := json.Unmarshal(in, &req); err != nil {
+			return err
+		}
+		if req.SNI == "" {
+			req.SNI = "example.com"
+		}
+		var bases [][]byte
+		for _, n := range req.Bases {
+			id, err := hlib.LookupID(n)
+			if err != nil {
+				return err
+			}
+			if h := mustHello(req.SNI, id); h != nil {
+				if _, err := renderJSON(h); err == nil {
+					bases = append(bases, h)
+				}
+			}
+		}
+		type doc struct {
+			name   string
+			typ    int // extension type, -1 suites, -2 compression
+			body   []byte
+			suites []uint16
+			comp   []byte
+		}
+		var docs []doc
+		docs = append(docs, doc{name: "ke_modes", typ: 45, body: u8Body(sortedKeys(dicttls.DictPSKKeyExchangeModeValueIndexed))})
+		docs = append(docs, doc{name: "ec_point_format_list", typ: 11, body: u8Body(sortedKeys(dicttls.DictECPointFormatValueIndexed))})
+		docs = append(docs, doc{name: "compress_certificate", typ: 27, body: u16Body(sortedKeys(dicttls.DictCertificateCompressionAlgorithmValueIndexed), 1)})
+		docs = append(docs, doc{name: "named_group_list", typ: 10, body: u16Body(sortedKeys(dicttls.DictSupportedGroupsValueIndexed), 2)})
+		docs = append(docs, doc{name: "supported_signature_algorithms", typ: 13, body: u16Body(sortedKeys(dicttls.DictSignatureSchemeValueIndexed), 2)})
+		docs = append(docs, doc{name: "compression_methods", typ: -2, comp: sortedKeys(dicttls.DictCompMethValueIndexed)})
+		all := sortedKeys(dicttls.DictCipherSuiteValueIndexed)
+		for i := 0; i < len(all); i += 120 {
+			j := i + 120
+			if j > len(all) {
+				j = len(all)
+			}
+			docs = append(docs, doc{name: fmt.Sprintf("cipher_suites[%d:%d]", i, j), typ: -1, suites: all[i:j]})
+		}
+		for _, d := range docs {
+			var hello []byte
+			cands := bases
+			if d.typ == -2 { // compression methods other than null are only kept by hellos without TLS 1.3: last bases first
+				cands = nil
+				for i := len(bases) - 1; i >= 0; i-- {
+					cands = append(cands, bases[i])
+				}
+			}
+			for _, b := range cands {
+				p, err := parseHello(b)
+				if err != nil {
+					continue
+				}
+				has := d.typ < 0
+				for _, e := range p.exts {
+					has = has || int(e.typ) == d.typ
+				}
+				if !has {
+					continue
+				}
+				repl := map[uint16][]byte{}
+				if d.typ >= 0 {
+					repl[uint16(d.typ)] = d.body
+				}
+				if h, err := rebuildHello(b, d.suites, d.comp, repl); err == nil {
+					hello = h
+					break
+				}
+			}
+			if hello == nil {
+				out.Emit(map[string]any{"ev": "JsonExtSkipped", "name": "list:" + d.name, "type": d.typ, "why": "no base hello carries this member"})
+				continue
+			}
+			ev := map[string]any{"ev": "JsonHello", "id": "list:" + d.name, "k": 0, "orig": hlib.Ints(hello), "types": []int{}, "json": []int{}, "renderr": "", "jsonerr": "", "rawerr": "",
+				"a": []int{}, "b": []int{}, "sni": hlib.Ints([]byte(req.SNI)), "padlen": 0}
+			func() {
+				defer func() {
+					if p := recover(); p != nil {
+						ev["rawerr"] = fmt.Sprint("panic: ", p)
+					}
+				}()
+				jsonPair(ev, hello, req.SNI)
+			}()
+			out.Emit(ev)
+		}
+		return nil
+	})
+}
+
 // withPadding returns the ClientHello hs with its padding extension (type 21) set to n zero bytes; a hello without one
 // gets it appended as the last extension. Only lengths are recomputed.
 func withPadding(hs []byte, n int) ([]byte, error) {
